@@ -18,7 +18,8 @@ MANIFEST = {
           'C03_linearizable (FULL, not the _partial fallback: slow-path queue and retry exhaustion included; forward simulation to a one-register '
           'spec over all runs), C03_final (scan passed + committed + quiescent => src empty, dst = value of the last linearized write / nothing after a delete), '
           'C03_ttl_preserved (every transfer copies (val, ttl_restore pttl): C19), plus witness theorems showing each run premise is necessary '
-          '(C03_unclassified_delete_refuted, C03_commit_race_witness, C03_barrier_needed_witness) and the finite classification table '
+          '(C03_unclassified_delete_refuted, C03_commit_race_witness, C03_barrier_needed_witness, C03_ensured_delete_witness), C03_ensured_needs_import '
+          '(the effect of a multi-key command on a key it is not routed by - event EvEnsured, modelling ensure_keys_imported - is never enabled while the key is only on the source) and the finite classification table '
           '(C03_unclassified_on_pinned_tree = SDIFFSTORE, SINTERSTORE, ZINTERSTORE, ZUNIONSTORE; C03_classification_complete with work/fix_C03.diff). '
           'Tie to the code: real proxies + real handshake + real scan in one process under random traffic; the extracted model must ACCEPT the per-key '
           'projection of every trace (exact value of the key on the touched Redis node before every command, every invocation and reply); '
@@ -28,7 +29,9 @@ MANIFEST = {
           'finite table ONLY with work/fix_C03.diff applied; on the pinned tree 4 supported commands violate it and the witness replays on the real code), commit_ok '
           '(the destination\'s metadata commit does not overtake a transfer that still holds a dumped value: a theoretical race of the real code - a pull-path command '
           'stalled between DUMP and RESTORE across the whole final switch - shown necessary by C03_commit_race_witness, NOT replayed on the real code). '
-          'Not modelled: real time (key expiry during migration, max_blocking_time / max_migration_time force-ahead, reconnects), Redis errors other than BUSYKEY, '
+          'ensured_ok (a multi-key script that DELETES a key other than its first - pushed for the first key only - is covered only when the source copy is gone and no transfer holds a dump of it; '
+          'necessity: C03_ensured_delete_witness; observed outside-premise on the real code in the directed multi-key runs, without client-visible effect). '
+          'Known finding multikey-eval-active-redirect-precheck-race (reported as KNOWN-FINDING by the directed `race` cases, active=1 only). Not modelled: real time (key expiry during migration, max_blocking_time / max_migration_time force-ahead, reconnects), Redis errors other than BUSYKEY, '
           'MAX_REDIRECTIONS, multi-key commands (only the first key is pulled by the importing proxy: the *STORE source keys may still be on the source - seen by the harness '
           'with sets=1, outside this per-key model). Real schedules are sampled, not enumerated; the acceptor searches hidden (lock / routing / handshake) events. '
           'Trusted: Coq kernel, extraction + ocaml/d_migrate.ml (acceptor search), harness/migrate stand-ins (Redis semantics: atomic commands, RESTORE without REPLACE = BUSYKEY, '
@@ -49,6 +52,7 @@ MAY_DELETE = ['BLPOP', 'BRPOP', 'BRPOPLPUSH', 'BZPOPMAX', 'BZPOPMIN', 'DEL', 'EV
               'ZREMRANGEBYLEX', 'ZREMRANGEBYRANK', 'ZREMRANGEBYSCORE', 'ZUNIONSTORE']
 BLOCKING_TRANSLATION = {'BLPOP': 'LPOP', 'BRPOP': 'RPOP', 'BRPOPLPUSH': 'RPOPLPUSH', 'BZPOPMIN': 'ZPOPMIN', 'BZPOPMAX': 'ZPOPMAX'}
 KNOWN_ID = 'unclassified-store-commands-resurrect-deleted-key'
+RACE_ID = 'multikey-eval-active-redirect-precheck-race'
 ENSURE_ROUNDS = 3
 CLIENT_CMDS = ('GET', 'SET', 'DEL', 'APPEND', 'EVAL', 'EXISTS', 'MGET', 'MSET')
 
@@ -543,12 +547,12 @@ def mig_cases(chk):
     if chk.tier == 'quick':
         cfgs = [(1, 0), (2, 0), (2, 1), (3, 0), (3, 1)]
         for i, (conns, active) in enumerate(cfgs):
-            cases.append(dict(seed=r.randrange(1, 10**6), conns=conns, active=active, nkeys=70, nout=20, clients=6, ops=330, lat=2000, mk=1 if i in (1, 4) else 0))
+            cases.append(dict(seed=r.randrange(1, 10**6), conns=conns, active=active, nkeys=70, nout=20, clients=6, ops=330, lat=2000, mk=1 if (i in (1, 3) and active == 0) else 0))
     else:
         for i in range(96):
             cases.append(dict(seed=r.randrange(1, 10**6), conns=1 + i % 3, active=(i // 3) % 2, nkeys=r.choice([40, 70, 120]), nout=20,
                               clients=r.choice([4, 6, 8]), ops=r.choice([300, 400]), lat=r.choice([1000, 2000, 3000]),
-                              scan_count=r.choice([2, 10, 50]), mk=1 if i % 3 == 2 else 0))
+                              scan_count=r.choice([2, 10, 50]), mk=1 if (i % 3 == 2 and (i // 3) % 2 == 0) else 0))
     return cases
 
 
@@ -772,6 +776,51 @@ def mkey_check(chk, pushes, stats):
     return out
 
 
+def race_check(chk, pushes, stats):
+    """directed witness of the KNOWN FINDING multikey-eval-active-redirect-precheck-race (DESIGN.md section 12): a 2-key EVAL through the importing
+    proxy whose ensure_keys_imported EXISTS of the last key is answered by the SOURCE (active redirection, both sides in PreCheck) and whose own
+    dispatch meets the importing task in PreSwitch.  With active=1 a reproduction (stale read / surviving key, acceptor rejection and linearizability
+    failure ON THE LAST KEY ONLY) is reported under the known id; anything else in these runs, and the same symptom with active=0, is a violation"""
+    out = []
+    cfgs = [('getall', 1, 1), ('delall', 2, 1), ('getall', 2, 0), ('delall', 1, 0)]
+    if chk.tier != 'quick':
+        cfgs += [(k, c, a) for k in ('getall', 'delall') for c in (1, 2, 3) for a in (0, 1)]
+    for i, (kind, conns, active) in enumerate(cfgs):
+        path = '%s/c03_race_%s_%d.jsonl' % (vlib.WORK, chk.tier, i)
+        line = 'race kind=%s conns=%d active=%d out=%s' % (kind, conns, active, path)
+        if os.path.exists(path): os.remove(path)
+        rc, res = chk.run_impl('migrate', [line], timeout=150)
+        r = res[0] if res else '<no output>'
+        chk.count(line, True)
+        stats['race'].append(r[:300])
+        m = dict(t.split('=', 1) for t in r.split() if '=' in t)
+        if not r.startswith('race ok') or m.get('gates', '000')[0] != '1' or m.get('gates', '000')[2] != '1':
+            out.append({'kind': 'correspondence', 'case': line, 'impl': r[:400], 'what': 'race scenario did not complete / PRECHECK or SCAN gate not reached', 'no_input': True})
+            continue
+        if kind == 'getall':
+            stale = m.get('eval_reply', '').endswith('_BN')
+        else:
+            stale = m.get('read_last') != 'BN' or m.get('final_last') != 'BN'
+        redirected = m.get('gates')[1] == '1'
+        lastkey = None
+        try:
+            meta, _ = load_trace(path)
+            lastkey = unhex(meta['inkeys'][1]).decode('latin1')
+        except Exception:
+            pass
+        vs = run_one_trace(chk, line, path, pushes, stats) if os.path.exists(path) else []
+        if stale:
+            vs.append({'kind': 'monitor', 'case': line, 'impl': r[:400], 'key': lastkey,
+                       'what': 'multi-key EVAL ran on the destination without its last key (eval_reply=%s read_last=%s final_last=%s)' % (m.get('eval_reply'), m.get('read_last'), m.get('final_last'))})
+        for v in vs:
+            if active == 1 and redirected and v.get('key') == lastkey and v.get('kind') in ('monitor', 'correspondence'):
+                v['known_id'] = RACE_ID
+                v.pop('no_input', None)
+                stats['race_known'] += 1
+            out.append(v)
+    return out
+
+
 def run(chk):
     ok = vlib.standard_proof_phase(chk, TRUSTED, 'migrate')
     chk.cov['rule'] = ('cases = (i) every command name of docs/command_table.json through the real requires_blocking_migration (exhaustive), '
@@ -797,11 +846,12 @@ def run(chk):
     _, cls = chk.run_impl('migrate', ['classify ' + n for n in CLIENT_CMDS])
     pushes = {o.split()[1]: o.split()[2] == '1' for o in cls if o.startswith('classify')}
     stats = {'client_ops': 0, 'error_replies': 0, 'overlap': {}, 'keys': 0, 'key_events': 0, 'accepted': 0, 'hidden_steps': 0, 'budget': 0,
-             'outside_premise': [], 'witness': [], 'runs': [], 'timeouts': 0, 'collide': [], 'multi': [], 'mkey': []}
+             'outside_premise': [], 'witness': [], 'runs': [], 'timeouts': 0, 'collide': [], 'multi': [], 'mkey': [], 'race': [], 'race_known': 0}
     viol = witness_check(chk, stats)
     viol += collide_check(chk, pushes, stats)
     viol += multi_check(chk, pushes, stats)
     viol += mkey_check(chk, pushes, stats)
+    viol += race_check(chk, pushes, stats)
     for i, c in enumerate(mig_cases(chk)):
         path = '%s/c03_%s_%d.jsonl' % (vlib.WORK, chk.tier, i)
         line = case_line(c, path)
@@ -821,7 +871,7 @@ def run(chk):
             client_ops_on_range_keys_overlapping_source_phase=stats['overlap'], keys=stats['keys'], observed_events_on_keys=stats['key_events'],
             accepted=stats['accepted'], hidden_model_steps=stats['hidden_steps'], acceptor_budget_exceeded=stats['budget'],
             accepted_only_outside_premise=stats['outside_premise'][:10], witness=stats['witness'], run_summaries=stats['runs'][:12],
-            collide=stats['collide'][:20], collide_schedule_reached=stats.get('collide_schedule_reached'), multi_task_runs=stats['multi'][:24], multi_key_runs=stats['mkey'][:12])
+            collide=stats['collide'][:20], collide_schedule_reached=stats.get('collide_schedule_reached'), multi_task_runs=stats['multi'][:24], multi_key_runs=stats['mkey'][:12], race_witness_runs=stats['race'][:16], race_known_finding_observations=stats['race_known'])
     for v in viol:
         ni = v.pop('no_input', False)
         chk.violation(v, no_input=ni)
@@ -845,22 +895,24 @@ def replay(data):
         badr = ('dst_has_key=1' in r) or ('final_read=A 0' not in r and 'final_read=BN' not in r)
         print('model: C03_unclassified_delete_refuted predicts resurrection iff the command is not classified deleting')
         return 1 if badr else 0
-    if c.startswith('collide') or c.startswith('multi') or c.startswith('mkey'):
+    if c.startswith('collide') or c.startswith('multi') or c.startswith('mkey') or c.startswith('race'):
         _, impl = chk.run_impl('migrate', [c], timeout=300)
         print('case :', c); print('impl :', [x[:400] for x in impl])
         r = impl[0] if impl else ''
-        if c.startswith('mkey'):
+        if c.startswith('race'):
+            bad = None if (r.startswith('race ok') and ((' kind=getall' in r and 'eval_reply=' in r and not r.split('eval_reply=')[1].split()[0].endswith('_BN')) or (' kind=delall' in r and ' read_last=BN ' in r))) else 'multi-key EVAL ran on the destination without its last key (known finding %s when active=1)' % RACE_ID
+        elif c.startswith('mkey'):
             bad = None if (r.startswith('mkey ok') and ' bad_reads=0 ' in r) else 'read-backs contradict an acknowledged multi-key delete, or the run did not complete'
         else:
             bad = collide_monitor(r) if c.startswith('collide') else multi_monitor(r)
         print('monitor:', bad)
         v = []
         path = re.search(r'out=(\S+)', c).group(1)
-        if ('kind=del' in c or 'mode=traffic' in c or c.startswith('mkey')) and os.path.exists(path):
+        if ('kind=del' in c or 'mode=traffic' in c or c.startswith('mkey') or c.startswith('race')) and os.path.exists(path):
             _, cls = chk.run_impl('migrate', ['classify ' + n for n in CLIENT_CMDS])
             pushes = {o.split()[1]: o.split()[2] == '1' for o in cls if o.startswith('classify')}
             stats = {'client_ops': 0, 'error_replies': 0, 'overlap': {}, 'keys': 0, 'key_events': 0, 'accepted': 0, 'hidden_steps': 0, 'budget': 0,
-                     'outside_premise': [], 'witness': [], 'runs': [], 'timeouts': 0, 'collide': [], 'multi': [], 'mkey': []}
+                     'outside_premise': [], 'witness': [], 'runs': [], 'timeouts': 0, 'collide': [], 'multi': [], 'mkey': [], 'race': [], 'race_known': 0}
             v = run_one_trace(chk, c, path, pushes, stats)
             print('keys=%d accepted=%d' % (stats['keys'], stats['accepted']))
             for x in v[:4]:
